@@ -726,6 +726,13 @@ func (e *Engine) transparentStruct(t types.Type) bool {
 			switch n.Obj().Pkg().Path() + "." + n.Obj().Name() {
 			case "github.com/cosmos/cosmos-sdk/codec/types.Any":
 				return false
+			// plain data structs of cometbft that the Tendermint client builds and reads field by field
+			case "github.com/cometbft/cometbft/proto/tendermint/types.SignedHeader",
+				"github.com/cometbft/cometbft/proto/tendermint/types.Header",
+				"github.com/cometbft/cometbft/types.SignedHeader",
+				"github.com/cometbft/cometbft/types.Header",
+				"github.com/cometbft/cometbft/libs/math.Fraction":
+				return true
 			}
 		}
 		return false
@@ -944,6 +951,18 @@ func (e *Engine) load(st *State, addr Val, t types.Type) Val {
 			return e.loadGlobal(st, p.Opaque.T, p.Opaque.GoT.(*types.Pointer).Elem())
 		}
 		if p.Opaque.S == "Elem" {
+			if p.Opaque.Key != nil && p.Opaque.Key.S == "Obj" && p.Opaque.GoT != nil && e.transparentStruct(p.Opaque.GoT) {
+				return e.structView(st, p.Opaque.Key, p.Opaque.GoT)
+			}
+			if p.Opaque.Key != nil && p.Opaque.Key.S == "Obj" && p.Opaque.GoT != nil {
+				if pt, isPtr := p.Opaque.GoT.Underlying().(*types.Pointer); isPtr && e.transparentStruct(pt.Elem()) {
+					// an element of a sequence of message pointers: a cell holding the view of the pointee (a nil element
+					// would panic at its first use; not modelled)
+					c := st.newCell("elemptr")
+					st.heap[c.ID] = e.structView(st, p.Opaque.Key, pt.Elem())
+					return &PtrV{C: c, T: p.Opaque.GoT}
+				}
+			}
 			return p.Opaque.Key
 		}
 		// deref of opaque pointer: opaque content
@@ -1026,6 +1045,13 @@ func (e *Engine) fieldAddr(st *State, p Val, field int, t types.Type) Val {
 		panic(&NilDeref{"field of nil pointer"})
 	}
 	if pv.Opaque != nil {
+		if pv.Opaque.S == "Elem" && pv.Opaque.Key != nil && pv.Opaque.Key.S == "Obj" && pv.Opaque.GoT != nil && e.transparentStruct(pv.Opaque.GoT) {
+			// a field of an element of an opaque sequence of message structs: a view of the element
+			sv := e.structView(st, pv.Opaque.Key, pv.Opaque.GoT)
+			c := st.newCell("elemview")
+			st.heap[c.ID] = sv
+			return &PtrV{C: c, Path: []int{field}, T: t}
+		}
 		unsupported("field %d of opaque pointer %s", field, pv.Opaque.T)
 	}
 	return &PtrV{C: pv.C, Path: append(append([]int{}, pv.Path...), field), T: t}
@@ -1344,6 +1370,12 @@ func (e *Engine) valEq(st *State, a, b Val) string {
 		}
 	case *IfaceV:
 		switch y := b.(type) {
+		case *PtrV:
+			if x.Dyn != nil {
+				if _, isPtr := x.V.(*PtrV); isPtr {
+					return e.valEq(st, x.V, y)
+				}
+			}
 		case *StructV:
 			if x.Dyn != nil {
 				return e.valEq(st, x.V, y)
